@@ -88,6 +88,7 @@ type chanStats struct {
 	sends, recvs, closes    atomic.Int32
 	mu                      sync.Mutex
 	problems                []string
+	recvLog                 [][]byte            // what each successful Recv handed to the library
 	sendErr                 func(n int32) error // fault injection: error for the n-th Send (1-based)
 	recvErr                 func(n int32) ([]byte, error, bool)
 	closeUnblocks           bool
@@ -176,10 +177,21 @@ func (e *vend) Recv() ([]byte, error) {
 	defer e.st.inRecv.Add(-1)
 	if e.st.recvErr != nil {
 		if b, err, ok := e.st.recvErr(n); ok {
+			if len(b) != 0 {
+				e.st.mu.Lock()
+				e.st.recvLog = append(e.st.recvLog, b)
+				e.st.mu.Unlock()
+			}
 			return b, err
 		}
 	}
-	return e.in.get()
+	b, err := e.in.get()
+	if err == nil {
+		e.st.mu.Lock()
+		e.st.recvLog = append(e.st.recvLog, b)
+		e.st.mu.Unlock()
+	}
+	return b, err
 }
 
 func (e *vend) Close() error {
